@@ -100,7 +100,7 @@ def check_passthrough(ctx, fi, self_cls, stats, rule="C07.R2"):
                 done.add(k)
                 stats["sub"] += 1
                 ctx.ob(rule, fi, good, "sub-construct %s receives %s, expected the context in force %s" % (e["m"], N.show(e["ctx"]) if e["ctx"] else "nothing", N.show(cur)), node=e.node)
-            elif e.kind == "SUB" and e["m"] in ("parse", "build", "parse_stream", "build_stream"):
+            elif e.kind == "SUB" and e["m"] in ("parse", "build", "parse_stream", "build_stream", "sizeof"):
                 k = (id(e.node), "pub")
                 if k in done:
                     continue
@@ -177,6 +177,19 @@ def member_store_checks(ctx, rule="C07.R4"):
                         ctx.ob(rule, fi, bool(before), "%s._build stores the member's value under its name before building it" % cls, key="build store before", node=e.node)
         if found == 0:
             ctx.ob(rule, fi, False, "%s._build: no named-member path found" % cls, key="build store", node=fi.node)
+    # Union: the selector sees the union's own members -- it is evaluated in the union's scope after all members were parsed
+    fi, paths = method_paths(ctx, "Union", "_parse")
+    pf = N.selfattr("parsefrom")
+    ok, seen = True, 0
+    for p in paths:
+        evs = p.events
+        ev = [i for i, e in enumerate(evs) if e.kind == "EVAL" and e["param"] == pf and not e.depth]
+        le = [i for i, e in enumerate(evs) if e.kind == "LOOPEND" and not e.loops]
+        new = [e for e in evs if e.kind == "NEWCTX"]
+        for i in ev:
+            seen += 1
+            ok = ok and bool(le) and i > max(le) and bool(new) and evs[i]["ctx"] == new[0]["res"]
+    ctx.ob(rule, fi, ok and seen > 0, "Union._parse evaluates parsefrom in the union's own scope after the member loop (a selector may refer to the members just parsed)", key="Union selector after members", node=fi.node)
 
 
 def index_checks(ctx):
